@@ -1377,6 +1377,7 @@ func ruleRecordFilledByFullRead(c *chk.Ctx) {
 func ruleDataWithReaderError(c *chk.Ctx) {
 	m := delimiterRecv(c)
 	if m == nil {
+		c.Undecided("PAIR.dataerr", nil, "ruleDataWithReaderError: anchor", 0, "the code this rule is anchored in was not found (m == nil)")
 		return
 	}
 	for _, r := range effectiveReturns(c, m.f, 0) {
